@@ -766,6 +766,10 @@ def run(prog, rep, tier):
              'stopping_criterion() before the first iteration are dominated by an emptiness test')
     if check_empty_stats(prog, rep) < 6:
         raise AnalysisError('RESUME-empty-stats: fewer than 6 last-entry reads in is_converged')
+    rep.rule('RESUME-accumulators', 'attributes an algorithm accumulates over its run (sweeps, '
+             'evolved_time, trunc_err) are stored by get_resume_data')
+    if check_resume_accumulators(prog, rep) < 8:
+        raise AnalysisError('RESUME-accumulators: fewer than 8 accumulations in Algorithm classes')
     rep.floor('CRASH-typestate', 8)
     rep.floor('RESUME-order', 2)
     rep.floor('RESUME-keys', 3)
@@ -1301,4 +1305,59 @@ def check_empty_stats(prog, rep):
                                   'before the first sweep, and a resumed engine (sweeps restored, '
                                   'statistics reset) raises IndexError here' % unparse(x),
                                   x.lineno)
+    return n
+
+
+# ------------------------------------------------------------------ RESUME-accumulators
+def check_resume_accumulators(prog, rep):
+    """RESUME-accumulators: an attribute that an algorithm accumulates over its run
+    (`self.X = self.X + e` / `self.X += e` outside __init__: sweeps, evolved_time, trunc_err) is
+    state of the computation; an engine rebuilt from a checkpoint starts it from its initial value
+    unless get_resume_data (along the MRO) stores it. Every such accumulator of a class with a
+    get_resume_data is therefore among the stored keys."""
+    ct = prog.classtable()
+    base = ct.get('Algorithm')
+    n = 0
+    for ci in ct.cone(base):
+        saved = set()
+        has = False
+        for c in ci.mro:
+            g = c.methods.get('get_resume_data')
+            if g is None:
+                continue
+            has = True
+            for st in ast.walk(g):
+                if isinstance(st, ast.Assign):
+                    for t in st.targets:
+                        if isinstance(t, ast.Subscript) and isinstance(t.slice, ast.Constant) and \
+                                isinstance(t.value, ast.Name):
+                            saved.add(t.slice.value)
+        if not has:
+            continue
+        for name, f in ci.methods.items():
+            if name == '__init__':
+                continue
+            for st in stmts_of(f):
+                a = None
+                if isinstance(st, ast.AugAssign) and isinstance(st.op, ast.Add) and \
+                        is_self_attr(st.target):
+                    a = st.target.attr
+                if isinstance(st, ast.Assign) and len(st.targets) == 1 and is_self_attr(
+                        st.targets[0]) and isinstance(st.value, ast.BinOp) and isinstance(
+                            st.value.op, ast.Add) and any(
+                                is_self_attr(x) and x.attr == st.targets[0].attr
+                                for x in (st.value.left, st.value.right)):
+                    a = st.targets[0].attr
+                if a is None:
+                    continue
+                n += 1
+                rep.instance('RESUME-accumulators', {'class': ci.name, 'method': name,
+                                                     'accumulator': a, 'saved': a in saved})
+                if a not in saved:
+                    rep.violation('RESUME-accumulators', ci.module, '%s.%s' % (ci.name, name),
+                                  'accumulator-not-saved:' + a,
+                                  '`%s` accumulates self.%s over the run, but get_resume_data '
+                                  '(along the MRO of %s) stores only %s: an engine resumed from a '
+                                  'checkpoint restarts it from its initial value' %
+                                  (key_text(st)[:60], a, ci.name, sorted(saved)), st.lineno)
     return n
